@@ -71,6 +71,14 @@ impl Setup {
     }
 }
 
+/// key-switching key dump for `ks_op` lines: polynomials j-major (two per decomposition index), all key-level components
+pub fn kskey_str(s: &Setup, keys: &Vec<PublicKey>) -> String {
+    let n = s.n;
+    keys.iter().flat_map(|pk| { let c = pk.as_ciphertext(); let k = c.coeff_modulus_size();
+        (0..c.size()).map(move |i| { let p = c.poly(i); (0..k).map(|cc| fl(&p[cc * n..(cc + 1) * n])).collect::<Vec<_>>().join(";") }).collect::<Vec<_>>() }).collect::<Vec<_>>().join("|")
+}
+pub fn key_qs(s: &Setup) -> Vec<u64> { s.level_qs(s.ctx.key_parms_id()) }
+
 /// parameter families: NTT-friendly primes of the given bit sizes (key level = all of them)
 pub fn pick_primes(r: &mut Rng, n: usize, bits: &[usize]) -> Option<Vec<u64>> {
     let v = crate::c10::ntt_primes(r, n, bits);
